@@ -812,4 +812,14 @@ Section SampleProofs.
     unfold f_marg. apply nth_map2; [exact HK|].
     destruct (backward_marginals s r term) as [|m ms]; [exact Ht|]. inversion Hl; assumption.
   Qed.
+  (* the zero-draw hypotheses are met by the zero column; with fitting list
+     lengths the sampler returns a value *)
+  Example zero_col_satisfiable n : zero_col n (mzero n 1 : mat) /\ Forall (zero_col n) [mzero n 1 : mat].
+  Proof.
+    assert (Hz : zero_col n (mzero n 1 : mat)) by (intros i Hi; apply mget_mzero; lia).
+    split; [exact Hz|]. constructor; [exact Hz|constructor].
+  Qed.
+  Example markov_sample_defined n c (m0 L0 : mat) (K : cond) (L z0 z1 : mat) reverse :
+    exists xs, markov_sample reverse n c m0 L0 [K] [L] [z0; z1] = Some xs /\ length xs = 2%nat.
+  Proof. destruct reverse; eexists; (split; [reflexivity|reflexivity]). Qed.
 End SampleProofs.
